@@ -66,6 +66,7 @@ TraceVerdict == IF ~HasTrace THEN "none" ELSE IF bad # "" THEN bad ELSE "accepte
 \* for round-trip checks on harness-supplied scripts: is the program within C01's scope (every parameter occurs in an operation,
 \* no array argument still contains a parameter)?
 InScope == S.res.k = "ok" /\ AllParamsUsed(S.res.prog) /\ ~HasSymArray(S.res.prog)
+           /\ (S.res.prog.type.name = "tdm" => \A i \in 1..Len(S.res.prog.vars) : ValPars(S.res.prog.vars[i].v) = {})
 Emit == Done => PrintT(<<"ORACLE", ToJson([k |-> k, out |-> S.res, trace |-> TraceVerdict, at |-> l - 1, inscope |-> InScope])>>)
 \* mechanism invariants evaluated on every step of every real trace
 LoopVarScoped == (Running /\ Len(S.st) = 1 /\ CurA \in {"stmt", "exprvar", "arrayvar", "enterFor", "exitProgram"} /\ Top(S).loop = None)
